@@ -26,7 +26,7 @@ ASSUMPTIONS = ["out-of-envelope values are not judged (only acceptance inside th
                "value at the altitude the frame itself reports must not be inferred as BDS60",
                "T1 observes the isXX predicates of the repository itself; their soundness/completeness is what T2/T3 judge",
                "DF20 BDS 6,0 contents are generated with IAS within 10 kt of the Mach-consistent value at the frame's altitude"]
-REQUIRED = ["same_payload_under_another_header_first", "t0_random", "t1_df17", "t1_commb", "t1_empty", "t4_none", "t4_decided50", "t4_decided60", "t4_both", "t5_alt_le0", "t5_metric_header_altitude", "t4_reference_within_ulps_of_a_candidate", "t4_df20_header_altitude_consistent_with_mach_and_ias",
+REQUIRED = ["same_payload_under_another_header_first", "t0_random", "t1_df17", "t1_commb", "t1_empty", "t4_none", "t4_decided50", "t4_decided60", "t4_both", "t5_alt_le0", "t5_metric_header_altitude", "t6_within_0.3kt_inside_the_tolerance", "t6_within_0.3kt_outside_the_tolerance", "t4_reference_within_ulps_of_a_candidate", "t4_df20_header_altitude_consistent_with_mach_and_ias",
             "t5_alt_pos"] + \
            ["t2_BDS%s" % r for r in ("10", "17", "20", "30", "40", "44", "45", "50", "60")] + \
            ["t3_BDS%s" % r for r in ("10", "17", "20", "30", "40", "44", "45", "50", "60")]
@@ -564,7 +564,50 @@ def m_t5(ctx, case):
         ctx.nontrivial(("t5", hx))
 
 
-MONITORS = {"t0": m_t0, "t2": m_t2, "t3": m_t3, "t4": m_t4, "t5": m_t5}
+def m_t6(ctx, case):
+    """the 20 kt Mach/IAS tolerance of BDS 6,0 under a DF20 header, probed to 0.2 kt: the header altitude (25-ft steps) is
+    searched so that the integer IAS lies 19.7-19.9 kt (must be reported) or 20.1-20.3 kt (must not) from the CAS of the Mach
+    number AT THAT pressure altitude - a bias of a few tenths of a knot in the altitude / atmosphere handling shows here"""
+    from pyModeS import bds
+    IS = isfuncs()
+    rng = ctx.rng
+    for _ in range(case["n"]):
+        m = rng.randint(60, 240)
+        sgn = rng.choice((-1, 1))
+        want_in = rng.random() < 0.5
+        lo, hi = (19.7, 19.9) if want_in else (20.1, 20.3)
+        n0 = rng.choice((rng.randrange(41, 1900), rng.randrange(900, 1900)))
+        found = None
+        for n in range(n0, min(n0 + 120, 2047)):
+            altft = n * 25 - 1000
+            cas = isa.mach2cas(m * 2.048 / 512.0, altft * isa.FT) / isa.KTS
+            ias = int(round(cas + sgn * (lo + hi) / 2))
+            if 0 < ias <= 500 and lo <= sgn * (ias - cas) <= hi:
+                found = (n, altft, cas, ias)
+                break
+        if not found:
+            continue
+        n, altft, cas, ias = found
+        mb, _ = b60(rng, 21, True)
+        mb = put(put(mb, 25, 34, m), 14, 23, ias)
+        hx = commb_hex(ctx, mb, 20, ralt.q_code13(n))
+        q = call(IS["BDS60"], hx)
+        r = call(bds.infer, hx, rng.random() < 0.5)
+        ctx.ev(2)
+        said = q == ("ok", True) or (r[0] == "ok" and r[1] is not None and "BDS60" in str(r[1]).split(","))
+        if q[0] != "ok" or r[0] != "ok":
+            ctx.violation("infer-raises", frame=hx, observed=[q[1:], r[1:]])
+        elif want_in and not (q == ("ok", True) and said):
+            ctx.violation("valid-BDS60-not-reported", frame=hx, altitude_ft=altft, mach=m * 0.004, ias=ias, cas_of_mach=round(cas, 3),
+                          off_by_kt=round(abs(ias - cas), 3), tolerance=20, infer=r[1], is60=q[1:])
+        elif not want_in and said:
+            ctx.violation("mach-ias-inconsistency-beyond-20kt-reported-as-BDS60", frame=hx, altitude_ft=altft, mach=m * 0.004, ias=ias,
+                          cas_of_mach=round(cas, 3), off_by_kt=round(abs(ias - cas), 3), infer=r[1], is60=q[1:])
+        ctx.hit("t6_within_0.3kt_inside_the_tolerance" if want_in else "t6_within_0.3kt_outside_the_tolerance")
+        ctx.nontrivial(("t6", hx))
+
+
+MONITORS = {"t0": m_t0, "t2": m_t2, "t3": m_t3, "t4": m_t4, "t5": m_t5, "t6": m_t6}
 
 
 def sample_data():
@@ -633,4 +676,5 @@ def cases(ctx):
     for k in range(16 if quick else 128):
         if ctx.mine(i):
             yield "t5", {"n": 400 if quick else 2000}
+            yield "t6", {"n": 150 if quick else 1500}
         i += 1
